@@ -31,6 +31,7 @@ if h:
                     "k": "classification wrappers (Classify.read_all/construct)",
                     "b": "translated limits.StreamBudget/MaxXRefEntries vs the compiled functions",
                     "a": "budget charge vs allocation at the real allocation sites (Charge.v: DCT pixelPlaneBytes/makeImg, predictor, CCITT, JBIG2 pool, LZW)",
+                    "f": "DCT frame kinds x scan scripts (DCTFrames.decode_frame) vs the real decoder: accepted or refused, rows written",
                     "w": "progressive JPEG pass counter (Charge.run_scans) vs the real decoder's progVisits/totalProgBlocks on scan scripts",
                     "x": "validators of the real CCITT code tables (CCITT.main_table_ok/run_table_ok)",
                     "e": "CCITT 2-D cursor arithmetic on first rows (CCITT.row2d) vs the real reader",
@@ -49,6 +50,8 @@ c.finish(
         "for JBIG2 inputs with many large regions the LIVE heap is sampled during the decode (runtime.GC + HeapAlloc every 2 ms) against StreamBudget(rawLen) + 1 MiB: this ties the pool model's live <= peak <= taken invariant to the bytes really reachable, by measurement; for those cases the cumulative TotalAlloc is not judged",
         "progressive JPEGs built by the harness from scan scripts (DC/AC, first pass/refinement, EOB-run tokens, restart intervals; up to 10000 scans of 26 bytes over 131044 blocks in the quick tier) run under the same tighter watchdog; "
         "the pass cap itself (blocks walked <= maxProgPasses x blocks allocated + 1, dct_pass_cap) is tied through the hook VerifProgVisits, which reads the real decoder's counter - a change that stops counting some visits is seen by the counter comparison and by the watchdog, not by the theorem",
+        "DCT frame kinds: DCTFrames.v models only which SOS may follow which and when rows are written (not the entropy decoding); it is compared on every SOF marker C0..CF x nine scan scripts x 1/3/4 components, and every such body is held to the size of the image it declares (output-bound); rows already written when a file is refused can be lost in the decoder's output buffer, so only the verdict is compared then",
+        "budget identity along the chain is measured, not proved for the implementation: JBIG2, DCT, CCITT and predictor stages behind Flate/LZW/RunLength/ASCIIHex stages with enormously expanding bodies are held to StreamBudget(RAW length) by the live-heap and TotalAlloc oracles (chain_memory_bound states the shared cell for the model)",
         "CCITT 2-D bodies packed by the harness from chosen codes (dense reference row, then VR/VL, pass or V0 storms, Columns up to 2^18 quick / 2^20 thorough) run under a tighter watchdog of 0.75 s + 5 us per byte (the unchanged tree needs < 0.05 s)",
         "output bounds of CCITTFax (rows <= min(MaxImageHeight, MaxImagePixels/Columns)), JBIG2 (<= StreamBudget(rawLen)) and DCT (<= MaxImageBytes) are measured on hostile headers, not proved (those decoders are not modelled)",
         "the models read each decoder with one Read loop over a buffer larger than the data; RunLength may report a clean end instead of Malformed when a consumer buffer boundary falls inside a truncated literal run (both outcomes satisfy C08); the harness compares RunLength stages only where no boundary can fall (note in coq/C08/Simple.v)",
